@@ -21,7 +21,7 @@ ANCHOR_FILES = _simp.ANCHOR_FILES
 ASSUMPTIONS = ['vt.refsem truth tables; vt.wf for the result']
 REQUIRED = {'mon:transform.checked': 200, 'mon:apply_transformers.checked': 100, 'mon:cleanup.checked': 50,
             'changed': 100, 'form:pipe': 50, 'form:list': 50, 'leaf:RRG_in': 20, 'leaf:MEG': 20, 'leaf:MUO': 20,
-            'leaf:MDG': 20, 'leaf:RRG': 20}
+            'leaf:MDG': 20, 'leaf:RRG': 20, 'deep_circuits': 2}
 
 
 def shards(tier, seed):
@@ -29,6 +29,8 @@ def shards(tier, seed):
     budget = 45 if tier == 'quick' else 540
     _out = [{'kind': 'random', 'count': per, 'budget_s': budget, 'max_g': 12 if tier == 'quick' else 30,
              'max_in': 5 if tier == 'quick' else 6} for _ in range(16)]
+    _out.append({'kind': 'deep', 'count': 2 if tier == 'quick' else 20, 'budget_s': budget,
+                 'depths': netgen.DEEP_QUICK if tier == 'quick' else netgen.DEEP_THOROUGH})
     if tier == 'thorough':
         _out.append({'kind': 'suite', 'select': ['tests/cirbo/minimization', 'tests/cirbo/core'], 'budget_s': 900})
     return _out
@@ -39,6 +41,8 @@ def check_case(case, ctx):
     from cirbo.minimization.simplification import cleanup
     _simp.CUR['case'] = case
     net = netgen.from_description(case['net'])
+    if 'deep' in case['net']:
+        ctx.count('deep_circuits')
     rng = random.Random(case['rseed'])
     with monitor.suspended():
         try:
@@ -98,8 +102,11 @@ def gen_case(rng, spec):
     calls.append(['composition', ['pipe'] + [rng.choice(_simp.LEAVES) for _ in range(rng.randint(2, 4))]])
     calls.append(['cleanup', False])
     calls.append(['cleanup', True])
-    return {'kind': 'random', 'shape': shape, 'net': netgen.describe(net), 'rseed': rng.getrandbits(32),
+    case = {'kind': 'random', 'shape': shape, 'net': netgen.describe(net), 'rseed': rng.getrandbits(32),
             'shuffle': rng.random() < 0.25, 'calls': calls, 'edited': rng.random() < 0.3}
+    if spec.get('kind') == 'deep':   # a long dependency chain instead (ripple / iterated constructions)
+        case.update(net=netgen.deep_description(rng, spec['depths']), shape='deep', shuffle=False, edited=False)
+    return case
 
 
 def run_shard(spec, ctx):
